@@ -72,6 +72,8 @@ CONTEXTS = {
     "N/2":     lambda n: el("mfrac", row(*n), mn("2")),
     "sqrt":    lambda n: el("msqrt", *n),
     "y=N.":    lambda n: row(mi("y"), mo("="), *n, mo(".")),
+    "y=N,":    lambda n: row(mi("y"), mo("="), *n, mo(",")),            # the sentence goes on after a comma
+    "y=N;":    lambda n: row(mi("y"), mo("="), *n, mo(";")),
     "N;N":     lambda n: row(mo("["), *[x.copy() for x in n], mo(";"), *[x.copy() for x in n], mo("]")),
     # fences with material in front of them, the list as the generator's own mrow or flat
     "P=(mrowN)": lambda n: row(mi("P"), mo("="), mo("("), row(*n), mo(")")),
@@ -82,10 +84,10 @@ CONTEXTS = {
     "cell":    lambda n: el("mtable", el("mtr", el("mtd", *n), el("mtd", mi("b")))),
 }
 FENCED = ("f(N)", "f(mrowN)", "N;N", "P=(mrowN)", "x∈[mrowN]", "A∪{N}", "f(mrowN)+a", "(mrowN)")
-MARK_LAST = ("alone", "a+N", "sqrt", "x^N", "y=N.")
+MARK_LAST = ("alone", "a+N", "sqrt", "x^N", "y=N.", "y=N,", "y=N;")
 CTX_CLASS = {"alone": "row", "a+N": "row", "N+a": "row", "f(N)": "fenced", "f(mrowN)": "fenced", "N;N": "fenced",
              "P=(mrowN)": "fenced", "x∈[mrowN]": "fenced", "A∪{N}": "fenced", "f(mrowN)+a": "fenced", "(mrowN)": "fenced",
-             "x^N": "2d", "N/2": "2d", "sqrt": "2d", "cell": "2d", "y=N.": "sentence-final"}
+             "x^N": "2d", "N/2": "2d", "sqrt": "2d", "cell": "2d", "y=N.": "sentence-final", "y=N,": "before-comma", "y=N;": "before-semicolon"}
 
 
 def strip(t):
@@ -182,6 +184,9 @@ def work(item):
     for parts in nums:
         whole = "".join(parts)
         for cname, ctx in CONTEXTS.items():
+            if cname in ("y=N,", "y=N;") and cname[-1] in parts:
+                # "7 , 456 ," - the closing punctuation is the separator used inside: it reads as a list just as well; no claim
+                continue
             if parts[-1] == dmark and cname in MARK_LAST:
                 # a trailing decimal mark that is the last token of the expression (or is followed by
                 # the sentence period) cannot be told from sentence punctuation; the statement lists
